@@ -122,16 +122,19 @@ class MultipartDecoder:
         self._parts_decoded = 0
 
     def last_newline(self, data: bytes) -> int:
-        try:
-            last_nl = data.rindex(b"\n")
-        except ValueError:
-            last_nl = len(data)
-        try:
-            last_cr = data.rindex(b"\r")
-        except ValueError:
-            last_cr = len(data)
+        """The index at which the last line break in ``data`` starts, or
+        ``len(data)`` if there is none.
+        """
+        last_nl = data.rfind(b"\n")
+        last_cr = data.rfind(b"\r")
 
-        return min(last_nl, last_cr)
+        if last_nl == -1 and last_cr == -1:
+            return len(data)
+
+        if last_cr != -1 and last_nl == last_cr + 1:
+            return last_cr
+
+        return max(last_nl, last_cr)
 
     def receive_data(self, data: bytes | None) -> None:
         if data is None:
